@@ -245,6 +245,33 @@ def run_case(case: Dict[str, Any]) -> Dict[str, Any]:
             viol.append({"key": f"layout={name}|argument_modified", "msg": f"E{E}M{M}"})
         if q.numel() and q.data_ptr() == x.data_ptr():
             viol.append({"key": f"layout={name}|aliases_input", "msg": f"E{E}M{M}"})
+    # ambient environment: results must not depend on autograd mode or the default dtype
+    xe = draw(33)
+    q_ref = fmt.quantise(xe)
+    for env in ("no_grad", "inference_mode", "default_float64", "default_bfloat16", "requires_grad_input"):
+        try:
+            if env == "no_grad":
+                with torch.no_grad():
+                    qe = fmt.quantise(xe)
+            elif env == "inference_mode":
+                with torch.inference_mode():
+                    qe = fmt.quantise(xe.clone())
+            elif env.startswith("default_"):
+                old = torch.get_default_dtype()
+                try:
+                    torch.set_default_dtype(getattr(torch, env.split("_")[1]))
+                    qe = fmt.quantise(xe)
+                finally:
+                    torch.set_default_dtype(old)
+            else:
+                with torch.no_grad():
+                    qe = fmt.quantise(xe.clone().requires_grad_(True))
+        except Exception as e:  # noqa
+            viol.append(exception_violation(e, f"env={env}"))
+            continue
+        n += xe.numel()
+        if qe.dtype != q_ref.dtype or not torch.equal(qe.detach(), q_ref):
+            viol.append({"key": f"env={env}|result_depends_on_environment", "msg": f"E{E}M{M}"})
     # dtypes
     base = torch.cat([draw(64), torch.tensor([0.0, -0.0, mx if mx < 3e38 else 1e38, float("inf"), -float("inf")])])
     if E == 8:
